@@ -503,6 +503,8 @@ func c14() {
 		run.Require("operands_ge_2^63", 10)
 		run.Require("groups_with_kill_thread", 10)
 	}
+	// the same as a linux/386 build: the text forms are produced and read by code whose int and uint are 32 bits wide
+	run.RunSecondaryBuild()
 	run.Finish(run.Counter("action_strings")+run.Counter("operation_strings")+run.Counter("round_trips:hand-written-yaml")+run.Counter("round_trips:yaml.Marshal")+run.Counter("round_trips:json.Marshal"),
 		int64(len(distinct)),
 		"parsers: every ASCII case mask of every documented action/operation name (PRNG masks for long ones), near misses, Unicode fold look-alikes, PRNG strings, receivers preset to allow and kill_thread; policies: PRNG valid policies rendered as hand-written YAML in the documented spelling, yaml.Marshal and json.Marshal, loaded through the configuration path and compiled, program compared with the in-memory policy's; distinct = names + (groups, program length) shapes")
